@@ -1,4 +1,4 @@
-use std::hash::Hash;
+use std::{hash::Hash, mem};
 
 use bevy::{
     ecs::system::SystemParam,
@@ -158,6 +158,16 @@ impl InputReader<'_, '_> {
                 value.into()
             }
         }
+    }
+
+    /// Returns the [`ActionValue`] for the given [`Input`] ignoring consumed inputs and UI priority.
+    ///
+    /// Unlike [`Self::value`], reflects whether the input is physically held.
+    pub(crate) fn raw_value(&mut self, input: impl Into<Input>) -> ActionValue {
+        let consumed = mem::take(&mut *self.consumed);
+        let value = self.value(input);
+        *self.consumed = consumed;
+        value
     }
 
     fn mod_keys_pressed(&self, mod_keys: ModKeys) -> bool {
